@@ -173,4 +173,7 @@ Example C05_nonvacuous :
   r_umodpow modpow [B - 1; B - 1] [5; 1] [B - 3; B - 1] =
     omap enc (spec_umodpow (val [B - 1; B - 1]) (val [5; 1]) (val [B - 3; B - 1])) /\
   r_imodinv modpow (mkint Minus [5]) (mkint Minus [7]) = Ret (Some (mkint Minus [3])).
-Proof. repeat split; vm_compute; reflexivity. Qed.
+Proof.
+  split; [vm_compute; reflexivity|]. split; [vm_compute; reflexivity|]. split; [vm_compute; reflexivity|].
+  split; [vm_compute; reflexivity|]. split; vm_compute; reflexivity.
+Qed.
